@@ -28,7 +28,12 @@ fn value_of(coin: u64, assets: &[(usize, u64)]) -> Value {
     if !nz.is_empty() {
         let mut ma = MultiAsset::new();
         for (p, q) in nz {
-            ma.set_asset(&pol(*p), &an(), &bn(*q));
+            // policy index 10 + i: policy i under ANOTHER asset name ("d")
+            if *p >= 10 {
+                ma.set_asset(&pol(*p - 10), &AssetName::new(b"d".to_vec()).unwrap(), &bn(*q));
+            } else {
+                ma.set_asset(&pol(*p), &an(), &bn(*q));
+            }
         }
         v.set_multiasset(&ma);
     }
@@ -150,7 +155,7 @@ fn sc_explicit(ctx: &mut Ctx) {
     }
     let helper = ctx.choose_free(2);
     let coin_sel = ctx.choose_free(9);
-    let asset_sel = ctx.choose_free(6);
+    let asset_sel = ctx.choose_free(8);
     let cpb = *ctx.pick_free(&[4310u64, 1]);
     let order = ctx.choose_free(2); // 0: collateral first then balance, 1: balance first
     // an earlier, successful use of a helper on the same builder (the fields are then set again)
@@ -214,7 +219,11 @@ fn sc_explicit(ctx: &mut Ctx) {
             2 => vec![(0, ta + 1), (1, tbq)],
             3 => vec![(0, ta), (1, tbq), (2, 5)],
             4 => vec![],
-            _ => vec![(1, tbq)],
+            5 => vec![(1, tbq)],
+            // everything the inputs hold, plus another asset NAME under a policy they do hold / under
+            // each policy (when the inputs hold no such policy this is a foreign policy again)
+            6 => vec![(0, ta), (1, tbq), (10, 7)],
+            _ => vec![(0, ta), (1, tbq), (10, 1), (11, 1)],
         };
         let ret = TransactionOutput::new(&change, &value_of(coin, &assets));
         what = format!("collateral {:?} (coin {}, A {}, B {}) ; prior call {} ; set_collateral_return_and_total(return coin {} assets {:?}) ; cpb {} ; order {}", sel, tc, ta, tbq, prior, coin, assets, cpb, order);
@@ -363,7 +372,7 @@ pub fn scenario(name: &str, tier: Tier) -> Option<BoxedScenario> {
 
 pub fn run(tier: Tier, seed: u64) -> i32 {
     let mut rep = Report::new(P, tier, seed);
-    rep.rule = "collateral input sets of size 1..3 (thorough 1..5) over 5 candidates (ADA at three widths, ADA+A, ADA+A+B) x {set_collateral_return_and_total with 9 return coins around min-ADA / the input total x 6 asset choices (exact, fewer, more, different, none, partial); set_total_collateral_and_return with 9 totals} x coins_per_byte {4310, 1} x both orders of setting collateral and balancing; percentage helper: collateral sets (incl. none) x 7 percentages x 4 output sizes (one beyond everything offered, so that the helper fails while balancing) x 2 strategies. distinct = distinct argument tuples".into();
+    rep.rule = "collateral input sets of size 1..3 (thorough 1..5) over 5 candidates (ADA at three widths, ADA+A, ADA+A+B) x {set_collateral_return_and_total with 9 return coins around min-ADA / the input total x 8 asset choices (exact, fewer, more, another policy, none, partial, another asset name under a held policy x2); set_total_collateral_and_return with 9 totals} x coins_per_byte {4310, 1} x both orders of setting collateral and balancing; percentage helper: collateral sets (incl. none) x 7 percentages x 4 output sizes (one beyond everything offered, so that the helper fails while balancing) x 2 strategies. distinct = distinct argument tuples".into();
     rep.assume("the raw pass-through setters set_collateral_return / set_total_collateral validate nothing by design and are not entry points of this property");
     rep.trusted_base = vec!["notes/ledger_rules.md §7".into(), "refcbor".into()];
     rep.required_hits = vec!["ok:return_and_total", "ok:total_and_return", "ok:percentage-helper", "equation-holds", "asset-carrying-collateral", "err:assets-left-in-total", "err:return-below-min-ada", "err:total-exceeds-inputs", "helper-used-twice", "percentage-helper-err", "percentage-helper-err-in-balancing", "pct-with-remainder"];
